@@ -424,6 +424,20 @@ example : ∃ r', Impl.opAdd exO exR exOp = .ok r' ∧ Impl.den r'.con = exRes :
   obtain ⟨r', h1, _, h2⟩ := h
   exact ⟨r', h1, h2⟩
 
+/-- `opAdd_ensure_refines` on a pointer without a leading `/` (outside RFC 6901, decided by the
+specification since the repair D20): `ensurePathExists` creates nothing, the add is an error -/
+example : ∃ er, Impl.opAdd exO exR { exOp with path := ascii "a/2/b" } = .err er := by
+  have h := opAdd_ensure_refines (o := exO) (e := exO.esc) (r := exR)
+    (op := { exOp with path := ascii "a/2/b" })
+    (sop := { kind := .add, path := ascii "a/2/b", value := some exV })
+    (c := .lit (ascii "true")) 0 0 rfl exR_inv rfl rfl rfl (by rfl)
+    ((Inv_raw _ _).2 ⟨by decide, by decide⟩)
+    (by intro toks ht; cases ht)
+  have hs : Spec.applyOp (specOpts exO) 0 0 (Impl.den exR.con)
+      { kind := .add, path := ascii "a/2/b", value := some exV } = .fail .parentUnreachable := by rfl
+  rw [hs] at h
+  exact h
+
 def exOps : List Impl.Op :=
   [ exOp,
     { kind := ascii "add", path := ascii "/c/d", value := some (.lit (ascii "true")) } ]
